@@ -423,6 +423,86 @@ fn proof_model_lines(em: &mut Emitter, rng: &mut Rng) {
 }
 
 /// deviations inside an accepted presentation: every leaf of the revocation proof, and the link to the signature proof
+/// the identifier claim at another position than 0 (middle, last) of the credential schema: issuance, presentation,
+/// revocation and refresh must follow the schema's revocation claim wherever it sits
+pub fn revocation_claim_position<S: ShortGroupSignatureScheme>(em: &mut Emitter, rng: &mut Rng, suite: &str, tag: &str) {
+    use credx::credential::{ClaimSchema, CredentialSchema};
+    for pos in [1usize, 3] {
+        let mut cs = vec![
+            ClaimSchema { claim_type: ClaimType::Hashed, label: "name".into(), print_friendly: true, validators: vec![] },
+            ClaimSchema { claim_type: ClaimType::Number, label: "age".into(), print_friendly: true, validators: vec![] },
+            ClaimSchema { claim_type: ClaimType::Scalar, label: "ssn".into(), print_friendly: false, validators: vec![] },
+        ];
+        cs.insert(pos, ClaimSchema { claim_type: ClaimType::Revocation, label: "id".into(), print_friendly: false, validators: vec![] });
+        let schema = match CredentialSchema::new(Some("pos"), None, &[], &cs) {
+            Ok(s) => s,
+            Err(_) => continue,
+        };
+        let (public, mut issuer) = Issuer::<S>::new(&schema);
+        let mk = |rng: &mut Rng, id: &str| -> Vec<ClaimData> {
+            let mut v: Vec<ClaimData> = vec![HashedClaim::from(format!("Holder {}", id)).into(), NumberClaim::from(rng.range(0, 90) as isize).into(), ScalarClaim::from(rng.scalar()).into()];
+            v.insert(pos, RevocationClaim::from(id).into());
+            v
+        };
+        let ida = format!("pos{}-a-{}", pos, rng.below(1 << 20));
+        let idb = format!("pos{}-b-{}", pos, rng.below(1 << 20));
+        let (a, b) = match (call(|| issuer.sign_credential(&mk(rng, &ida))), call(|| issuer.sign_credential(&mk(rng, &idb)))) {
+            (Out::Ok(a), Out::Ok(b)) => (a, b),
+            _ => {
+                em.violation(&format!("{}:issuance-failed:revocation-claim-position", tag), format!("{}: issuing with the identifier claim at position {} failed", suite, pos), json!({"suite": suite, "position": pos}));
+                continue;
+            }
+        };
+        let show = |issuer_pub: &IssuerPublic<S>, cred: &Credential<S>, handle: MembershipWitness, value: Accumulator, nonce: &[u8]| -> bool {
+            let mut ip = issuer_pub.clone();
+            ip.revocation_registry = value;
+            let sig = SignatureStatement { disclosed: ["name".to_string()].into_iter().collect(), id: "sig".to_string(), issuer: ip.clone() };
+            let rev = RevocationStatement { id: "rev".to_string(), reference_id: "sig".to_string(), accumulator: value, verification_key: ip.revocation_verifying_key, claim: pos };
+            let stmts: Vec<Statements<S>> = vec![sig.into(), rev.into()];
+            let sch = PresentationSchema::new_with_id(&stmts, "pos");
+            let mut c = cred.clone();
+            c.revocation_handle = handle;
+            let mut creds: IndexMap<String, PresentationCredential<S>> = IndexMap::new();
+            creds.insert("sig".to_string(), c.into());
+            match call(|| Presentation::create(&creds, &sch, nonce)) {
+                Out::Ok(p) => call(|| p.verify(&sch, nonce)).is_ok(),
+                _ => false,
+            }
+        };
+        let nonce = rng.bytes(16);
+        let v0 = issuer.revocation_registry.value;
+        em.oracle_case(&format!("{} revocation-claim-position {}", suite, pos));
+        em.count(&format!("revocation-claim-position:{}", pos));
+        for (who, cred) in [("a", &a.credential), ("b", &b.credential)] {
+            if !show(&public, cred, cred.revocation_handle, v0, &nonce) {
+                em.violation(&format!("{}:active-cannot-present:revocation-claim-position", tag), format!("{}: holder {} with the identifier claim at position {} is not accepted", suite, who, pos), json!({"suite": suite, "position": pos}));
+            }
+        }
+        if call(|| issuer.revoke_credentials(&[RevocationClaim::from(ida.as_str())])).is_ok() {
+            let v1 = issuer.revocation_registry.value;
+            if v1.0 == v0.0 {
+                em.violation(&format!("{}:revocation-did-not-move-value:revocation-claim-position", tag), format!("{}: revoking an identifier issued at claim position {} left the registry value unchanged", suite, pos), json!({"suite": suite, "position": pos}));
+            }
+            if show(&public, &a.credential, a.credential.revocation_handle, v1, &nonce) {
+                em.violation(&format!("{}:revoked-presents:revocation-claim-position", tag), format!("{}: revoked holder (identifier claim at position {}) is accepted against the new value", suite, pos), json!({"suite": suite, "position": pos}));
+            }
+            if call(|| issuer.update_revocation_handle(RevocationClaim::from(ida.as_str()))).is_ok() {
+                em.violation(&format!("{}:revoked-refreshed:revocation-claim-position", tag), format!("{}: revoked identifier (claim position {}) refreshed", suite, pos), json!({"suite": suite, "position": pos}));
+            }
+            match call(|| issuer.update_revocation_handle(RevocationClaim::from(idb.as_str()))) {
+                Out::Ok(w) => {
+                    if !show(&public, &b.credential, w, v1, &nonce) {
+                        em.violation(&format!("{}:active-cannot-present:revocation-claim-position", tag), format!("{}: active holder (identifier claim at position {}) is not accepted after another holder's revocation", suite, pos), json!({"suite": suite, "position": pos}));
+                    }
+                }
+                _ => em.violation(&format!("{}:active-refresh-failed:revocation-claim-position", tag), format!("{}: refresh failed for the active identifier (claim position {})", suite, pos), json!({"suite": suite, "position": pos})),
+            }
+        } else {
+            em.violation(&format!("{}:revoke-failed:revocation-claim-position", tag), format!("{}: revoking an identifier issued at claim position {} failed", suite, pos), json!({"suite": suite, "position": pos}));
+        }
+    }
+}
+
 fn proof_deviations<S: ShortGroupSignatureScheme + 'static>(em: &mut Emitter, rng: &mut Rng, suite: &str) {
     let n_claims = 4;
     let schema = cred_schema(n_claims, &[]);
@@ -724,7 +804,7 @@ pub fn gen_c06(em: &mut Emitter, rng: &mut Rng) {
                after every revocation and at the end, for sampled holders every handle class (held, issuer-refreshed, public batch / multi-batch / single-step update, stale of every earlier epoch \
                with and without public updates, pre-revocation, borrowed, identity, value, random) is presented with the real Presentation::create / verify against the current value: \
                revoked ⇒ rejected for every class; active ⇒ accepted with refreshed and publicly updated handles; verdict == witness relation == model verdict; \
-               real prover's coins extracted from two challenges and the model prover / verifier compared point by point; proof-grafting and per-leaf deviations".into();
+               real prover's coins extracted from two challenges and the model prover / verifier compared point by point; proof-grafting, degenerate and per-leaf deviations; identifier claim at positions 1 and 3 of the schema".into();
     let n = em.n(10, 60);
     for k in 0..n {
         if em.mine(k) {
@@ -748,5 +828,9 @@ pub fn gen_c06(em: &mut Emitter, rng: &mut Rng) {
     }
     if em.mine(n + 3) {
         batch_orders::<Ps>(em, &mut rng.sub(1004), "ps");
+    }
+    if em.mine(n + 4) {
+        revocation_claim_position::<Bbs>(em, &mut rng.sub(1005), "bbs", "c06");
+        revocation_claim_position::<Ps>(em, &mut rng.sub(1006), "ps", "c06");
     }
 }
